@@ -191,8 +191,18 @@ func seqStep() int64 { return atomic.AddInt64(&seqCounter, 1) }
 // Guarded runs one body as the only thread of a scheduler run that continues the sequential step
 // numbering and clock: a body that blocks forever (parked on a channel, on a lock that is never
 // released) is reported instead of hanging the process. It returns "" or the wait description.
+var guardLocks = map[uintptr]*lockState{}
+
+// GuardReset forgets the lock ownership carried between Guarded runs (call it when the system under test is rebuilt).
+func GuardReset() { guardLocks = map[uintptr]*lockState{} }
+
 func Guarded(clock int64, body func()) string {
-	x := Execute(Options{Clock0: clock, Step0: atomic.LoadInt64(&seqCounter)}, nil, []func(){body})
+	for k, l := range guardLocks {
+		if l.owner < 0 && l.announced < 0 && l.readers == 0 {
+			delete(guardLocks, k) // free locks need no memory (their address may be reused by another object)
+		}
+	}
+	x := Execute(Options{Clock0: clock, Step0: atomic.LoadInt64(&seqCounter), KeepLocks: true}, nil, []func(){body})
 	if int64(x.Steps) > atomic.LoadInt64(&seqCounter) {
 		atomic.StoreInt64(&seqCounter, int64(x.Steps))
 	}
@@ -422,6 +432,7 @@ type Options struct {
 	Ticks         []int64 // clock deltas offered before a Now read
 	Clock0        int64
 	MaxSteps      int
+	KeepLocks     bool  // lock ownership survives into the next run with KeepLocks (a lock left held by a panicking request stays held)
 	Step0         int64 // first value of the step counter is Step0+1 (guarded sequential requests continue the global numbering)
 	Trace         bool
 }
@@ -511,6 +522,9 @@ func Execute(opt Options, prefix []int, bodies []func()) *Exec {
 		r.clock = ClockStart
 	}
 	r.step = opt.Step0
+	if opt.KeepLocks {
+		r.locks = guardLocks
+	}
 	cur = r
 	curEpoch++
 	batonReset()
